@@ -88,6 +88,7 @@ def cursor_check(prop, tier, seed):
     getters = [m for m in names if m.startswith("get_") or m.startswith("try_get_")]
     putters = [m for m in names if m.startswith("put_")]
     gens, results = [], []
+    design_progs = []
 
     def gen(tag, side, depth, leaves, maxops, lens, ops, meths, ns, k, simulate=None, take=3000, leaf_types=None, **kw):
         progs, st = K.generate("%s_%s" % (prop, tag), side, depth, leaves, maxops, lens, ops, meths, ns, k, seed, simulate=simulate,
@@ -101,8 +102,10 @@ def cursor_check(prop, tier, seed):
 
     allty = ["slice", "bytes", "bytesmut", "deque", "chunked", "cursor"]
     if prop == "C09":
-        gens.append(K.design_mc("C09_design", 2, 2, 1 if q else 2, [0, 2, 3], ["remaining", "chunk", "advance", "chunks_vectored", "copy_to_bytes", "try_copy_to_slice"],
-                                [], [0], leaf_types=allty))
+        dm = K.design_mc("C09_design", 2, 2, 1 if q else 2, [0, 2, 3], ["remaining", "chunk", "advance", "chunks_vectored", "copy_to_bytes", "try_copy_to_slice"],
+                         [], [0], leaf_types=allty, sample_k=600 if q else 300, seed=seed)
+        design_progs = dm.pop("design_programs")
+        gens.append(dm)
         gen("bfs", "buf", 1, 2, 2, [0, 3], BUF_OPS, [], [0], 60 if q else 8, take=3000)
         gen("sim", "buf", 3, 4, 3, [0, 1, 3], BUF_OPS, [], [0], 1, simulate=(2500 if q else 40000, 30), take=2500)
         gen("vec17", "buf", 2, 2, 2, [3, 18], ["chunks_vectored", "copy_to_bytes", "advance"], [], [0], 1, simulate=(800 if q else 8000, 30), take=800)
@@ -110,8 +113,10 @@ def cursor_check(prop, tier, seed):
         gen("takechain", "buf", 3, 3, 1, [2, 3], ["chunks_vectored", "copy_to_bytes", "advance", "remaining", "chunk"], [], [0], 4 if q else 100,
             take=3000, leaf_types=["slice"] if q else ["slice", "deque"], wraps=(), root_limit_only=True)
     elif prop == "C10":
-        gens.append(K.design_mc("C10_design", 1, 2, 1 if q else 2, [0, 1, 3, 9] if q else [0, 1, 3, 9, 17], ["get"], getters, list(range(0, 9)),
-                                leaf_types=["slice", "deque", "chunked"], wraps=()))
+        dm = K.design_mc("C10_design", 1, 2, 1 if q else 2, [0, 1, 3, 9] if q else [0, 1, 3, 9, 17], ["get"], getters, list(range(0, 9)),
+                         leaf_types=["slice", "deque", "chunked"], wraps=(), sample_k=60 if q else 100, seed=seed)
+        design_progs = dm.pop("design_programs")
+        gens.append(dm)
         gen("bfs", "buf", 1, 2, 1, [0, 1, 9, 17], ["get"], getters, list(range(0, 9)), 400 if q else 40, take=4000)
         # every getter through every forwarding wrapper (&mut B, Box<B>) and Take, on data where byte order matters
         gen("fwd", "buf", 1, 1, 1, [17], ["get"], getters, list(range(0, 9)), 2 if q else 1, take=12000)
@@ -123,8 +128,10 @@ def cursor_check(prop, tier, seed):
         gen("bfs", "mut", 1, 2, 1, [0, 1, 3, 9], MUT_OPS, putters, list(range(0, 9)), 100 if q else 10, take=4000)
         gen("sim", "mut", 3, 3, 3, [1, 3, 9], MUT_OPS, putters, list(range(0, 9)), 1, simulate=(1500 if q else 30000, 30), take=1500)
     elif prop == "C12":
-        gens.append(K.design_mc("C12_design", 3 if not q else 2, 2, 1 if q else 2, [2, 3], ["remaining", "advance", "copy_to_bytes", "chunks_vectored", "try_copy_to_slice"],
-                                [], [0], leaf_types=["slice", "deque", "bytes"], wraps=("ref",)))
+        dm = K.design_mc("C12_design", 3 if not q else 2, 2, 1 if q else 2, [2, 3], ["remaining", "advance", "copy_to_bytes", "chunks_vectored", "try_copy_to_slice"],
+                         [], [0], leaf_types=["slice", "deque", "bytes"], wraps=("ref",), sample_k=150 if q else 300, seed=seed)
+        design_progs = dm.pop("design_programs")
+        gens.append(dm)
         gen("bufsim", "buf", 4 if not q else 3, 4, 4, [0, 2, 3], ["advance", "copy_to_slice", "copy_to_bytes", "read", "set_limit", "consume", "remaining", "get", "chunks_vectored", "chunk"],
             ["get_u16", "get_u8", "try_get_u32_le"], [0], 1, simulate=(2500 if q else 40000, 40), take=2500)
         gens.append(K.design_mc("C12_sink_design", 2, 2, 1, [0, 1, 3], ["remaining_mut", "chunk_mut_len", "put_slice", "put_buf"], [], [0],
@@ -132,6 +139,17 @@ def cursor_check(prop, tier, seed):
         gen("mutsim", "mut", 4 if not q else 3, 4, 4, [0, 2, 3], ["put_slice", "write", "set_limit", "remaining_mut", "put_bytes", "put", "put_buf", "chunk_mut_len"],
             ["put_u16", "put_u8", "put_u32_le"], [0], 1, simulate=(2500 if q else 40000, 40), take=2500)
         gen("bfs", "buf", 2, 2, 1 if q else 2, [2], ["advance", "read", "set_limit", "copy_to_bytes"], [], [0], 20 if q else 40, take=2500)
+    if design_progs:
+        # replay the design model's own programs: G + V, and D (its predictions vs the recorded results)
+        dr = K.run_and_validate("%s_designreplay" % prop, pick(design_progs, 6000 if q else 40000, seed))
+        steps, drift, notes = K.conformance(dr["progs"], dr["trace"])
+        results.append(dr)
+        for g in gens:
+            if g.get("mode", "").startswith("design model BufTree"):
+                g.update({"conformance_steps": steps, "conformance_drift": drift, "model_drift": drift > 0, "drift_samples": notes})
+        if drift:
+            print("DRIFT property=%s: the code deviates from the design model BufTree.tla in %d of %d replayed steps (not a verdict; the laws still "
+                  "judge every step). First: %s" % (prop, drift, steps, notes[:1]))
     return K.report(prop, results, gens, tier, seed, t0, ASSUME_CURSORS)
 
 
